@@ -468,8 +468,10 @@ def instance_state(spec):
         init = [f for f in c.body if isinstance(f, ast.FunctionDef) and f.name == '__init__']
         init_attrs = set()
         for f in init:
+            aug = {id(n.target) for n in ast.walk(f) if isinstance(n, ast.AugAssign)}
             for n in ast.walk(f):
-                if is_self_attr(n) and isinstance(n.ctx, ast.Store):
+                # a plain assignment creates the instance's own object; `self.x |= ...` does not
+                if is_self_attr(n) and isinstance(n.ctx, ast.Store) and id(n) not in aug:
                     init_attrs.add(n.attr)
         class_level_mutable = {}
         for st in c.body:
@@ -489,6 +491,10 @@ def instance_state(spec):
                 if isinstance(n, ast.Subscript) and isinstance(n.ctx, (ast.Store, ast.Del)) and \
                         is_self_attr(n.value):
                     mutated.setdefault(n.value.attr, n.lineno)
+                # `self.x |= ...` / `self.x += ...` on a container: the in-place operator mutates the
+                # object self.x refers to -- the class-level one if the instance has none of its own
+                if isinstance(n, ast.AugAssign) and is_self_attr(n.target):
+                    mutated.setdefault(n.target.attr, n.lineno)
         shared = {a: ln for a, ln in mutated.items()
                   if a in class_level_mutable and a not in init_attrs}
         obls.append(ob('%s.instance_state' % cls, not shared,
